@@ -45,6 +45,11 @@ CHECKS = {
         technique='same exhaustive enumeration as C05; every necessarily-broken group without a forced break must be justified by a reference linearisation of its continuation (overflow, smart look-ahead overflow, or a later always_break); plus exhaustive width sweep around the one-line length of every corpus value',
         text='For every enumerated document, configuration and strategy, each group that the output proves broken and that contains no forced break must have a justification computed on the reference term (not by calling the implementation predicate). For values, every corpus value whose unbounded rendering is one line of L columns must print as that line at all widths/ribbons in L..L+2, 2L, 200. Eager breaking (off-by-one at exact fit, ribbon applied from the wrong origin) yields valid text that no pinned test notices; the enumeration reaches exact-fit configurations for every small document.',
         note='trusted: reference linearisation in mc/checks/_decisions.py (permissive where the statement is silent: a hoisted always_break later on the line also counts as justification); bound as C05'),
+    'C13': dict(
+        category='model_checking', design_ref='DESIGN.md 4/C13',
+        technique='exhaustive enumeration of all rooted object graphs <= 3 nodes (list / dict / tuple-holding-list, out-degree <= 2, self-loops, sharing) printed by the real code and compared, as ASTs, with a reference DFS carrying the on-path set; exhaustive re-print / aborted-print / pair histories for residue',
+        text='Every rooted directed multigraph up to three nodes (plus out-degree-1 graphs on four nodes and ring/lollipop/diamond families up to eight nodes in the thorough tier) is printed under a watchdog; recursion markers are rewritten to node identifiers and the output must have exactly the AST of a reference DFS that marks back-edges only, so a marker on merely shared structure, or a missing one, is a structural difference. Histories (print twice; abort a print through a printer returning a non-Doc, then print again; g1, g2, g1 over all small pairs) must reproduce the first-call output, and a probe printer checks that the visited set has exactly the DFS depth.',
+        note='trusted: reference DFS (20 lines); identity through id() in the marker text; termination is decided by a 10 s watchdog per print'),
     'C15': dict(
         category='model_checking', design_ref='DESIGN.md 4/C15',
         technique='explicit-state BFS over all operation histories up to a depth bound on the real registries (57 operations on a 6-class lattice with multiple inheritance), states merged by a canonical (implementation, reference-model) abstraction, every transition compared with the reference model, merges validated differentially',
